@@ -104,6 +104,21 @@ def worst_conditioning(ops):
 
 ILL = 1e5
 
+
+def has_degenerate_round(ops):
+    """some adaptation round of a replayed sampler script has a column without variance (e.g. a round that
+    ended after one simulated row): scale 0, infinite weights - outside the statement"""
+    rows = []
+    for op in list(ops) + [['init']]:
+        if op[0] in ('add', 'batch'):
+            M = len(op[1][0]['v'])
+            rows.append(np.hstack([np.array(x['v'], dtype=float).reshape(M, -1) for x in op[1]]))
+        elif op[0] in ('update', 'init'):
+            if rows and op[0] == 'update' and bool(np.any(np.vstack(rows).var(axis=0) == 0)):
+                return True
+            rows = []
+    return False
+
 def _must_not_run(*a, **k):
     raise RuntimeError('parent operation must not run: values are supplied')
 
@@ -176,9 +191,14 @@ class C12(PropCheck):
             'chebyshev/minkowski(p=1..4,1.5,2.5,+w)/seuclidean(V)/callables, observed as 0-d/1-d/2-d; malformed: row or width '
             'mismatch, 2-row observed.  adaptive: scripts of add_data/update_distance/init_adaptation_round/generate, 1-3 '
             'rounds, batches of 1..5 rows; partition: every composition of a data set of <= 6 (quick) / 8 (thorough) rows; '
-            'rejection: real Rejection.sample with AdaptiveDistance, batch sizes 1..7.  non-trivial = dist case with >=2 '
-            'columns after stacking or kwargs; adaptive case with >=2 batches in some round and an update followed by a '
-            'generate; distinct by full input')
+            'rejection: real Rejection.sample with AdaptiveDistance, batch sizes 1..7.  sampler: a model whose simulator '
+            'logs every row (1-3 scalar/vector summaries, width 1..4); 1-3 consecutive elfi.Rejection runs on one node '
+            '(objective n_sim / quantile / thresholds on any subset of the nested distances, batch sizes 1..10 changing '
+            'between rounds, sample() or set_objective/iterate/extract_result with the store observed after every batch) '
+            'or one AdaptiveDistanceSMC run (2-3 populations, batch sizes 1..8, quantile .34/.5/.75); replayed as '
+            'OInit, OBatch(all logged rows, acceptance mask)*, OUpdate, OSorted, OGen per round.  non-trivial = dist case '
+            'with >=2 columns after stacking or kwargs; adaptive case with >=2 batches in some round and an update followed '
+            'by a generate; sampler case with >=2 batches in some round; distinct by full input')
     trusted = ('scipy.spatial.distance.minkowski(u, v, p, w) (pairwise function, not cdist) is the oracle for non-integer p only; '
                'all other metrics are specified exactly in Coq (power form d^p over Q)',
                'numpy column_stack / atleast_2d / concatenate / broadcasting are modelled by their documented meaning on nested lists',
@@ -242,13 +262,21 @@ class C12(PropCheck):
     # ---- generators --------------------------------------------------------------------------------
     def generate(self):
         q = self.tier == 'quick'
-        yield from self.gen_dist(260 if q else 3500)
-        yield from self.gen_kw(60 if q else 600)
-        yield from self.gen_adaptive(110 if q else 1500)
-        yield from self.gen_partition(3 if q else 10, 6 if q else 8)
-        yield from self.gen_rejection(14 if q else 150)
-        yield from self.gen_sampler(26 if q else 300)
-        yield from self.gen_degenerate(6 if q else 40)
+        main = list(self.gen_dist(260 if q else 3500))
+        main += list(self.gen_kw(60 if q else 600))
+        main += list(self.gen_adaptive(110 if q else 1500))
+        main += list(self.gen_partition(3 if q else 10, 6 if q else 8))
+        main += list(self.gen_rejection(14 if q else 150))
+        samp = list(self.gen_sampler(26 if q else 200))
+        main += list(self.gen_degenerate(6 if q else 40))
+        # the sampler cases are the heaviest Coq terms: spread them evenly over the stream so that the case
+        # files (consecutive chunks, evaluated in parallel) are balanced
+        step = max(1, len(main) // (len(samp) + 1))
+        for i, c in enumerate(main):
+            yield c
+            if (i + 1) % step == 0 and samp:
+                yield samp.pop(0)
+        yield from samp
 
     def gen_dist(self, n):
         r = self.rng
@@ -440,6 +468,8 @@ class C12(PropCheck):
                     elif obj == 'quantile':
                         spec['quantile'] = r.choice([0.25, 0.5, 0.99])
                     else:
+                        if b == 1:
+                            spec['n_samples'] = max(ns, 2)      # a round of one simulated row has no variance
                         spec['q'] = r.choice([0.3, 0.5, 0.8])
                         # which of the k+1 nested distances get a finite threshold (at least one)
                         finite_ = [r.random() < 0.4 for _ in range(k + 1)]
@@ -631,7 +661,9 @@ class C12(PropCheck):
             return ['skip']
         ad = sampler.model['ad']
         n, mean, m2 = self.observe_store(ad)
-        return ['add', n, mean, m2, np.atleast_1d(ad.state['scale']).astype(float).tolist()]
+        # no 'scale' yet = nothing was ever added through this model: reported as an empty vector
+        scale = np.atleast_1d(ad.state['scale']).astype(float).tolist() if 'scale' in ad.state else []
+        return ['add', n, mean, m2, scale]
 
     def node_obs_update(self, ad):
         return ['update', np.atleast_1d(ad.state['w'][-1]).astype(float).tolist(), len(ad.state['distance_functions']),
@@ -831,6 +863,8 @@ class C12(PropCheck):
                 if o[0] == 'crash':
                     fails.append(('crash', 'a call on the AdaptiveDistance node raised: ' + o[1].split(':')[0] + ': ' + o[1].split(':')[1]))
                     break
+        if case['kind'] == 'sampler' and has_degenerate_round(out['ops']):
+            return fails
         if case['kind'] in ('adaptive', 'rejection', 'sampler') and case.get('bad') != 'degenerate' and not obs_finite(out['obs']):
             fails.append(('nonfinite', 'non-finite state or distance although every column of every round has positive variance'))
         if case['kind'] == 'dist' and not finite(out['out']):
@@ -949,6 +983,9 @@ class C12(PropCheck):
                 mname = [v for k, v in out['out'] if k == 'metric']
                 impl = '(Some (%s, %s))' % (cstr(mname[0] if mname else ''), clist(['(%s, %s)' % (cstr(k), cvec(v)) for k, v in rest]))
             return '(CK {| k_metric := %s; k_kwargs := %s; k_impl := %s |})' % (cstr(case['metric']), kws, impl)
+        if kind == 'sampler' and has_degenerate_round(out['ops']):
+            self.bump('sampler:degenerate_round_skipped')
+            return None
         if kind in ('rejection', 'sampler'):
             ops, obs, observed = out['ops'], [o[:-1] if o[0] == 'sorted' else o for o in out['obs']], out['observed']
         else:
